@@ -44,6 +44,10 @@ pub struct QSrv {
     pub indirect_seen: u64,
     pub completed: u64,
     pub last_irq_used_idx: u16,
+    /// A polling device that, after this many completions, stops polling, lifts the notification
+    /// suppression, looks at the ring once more (as a device must after re-enabling notifications) and
+    /// from then on serves only when notified.
+    pub switch_after: Option<u64>,
 }
 
 impl QSrv {
@@ -51,7 +55,7 @@ impl QSrv {
         let reg = *st.queues.get(&q)?;
         let f = st.driver_features.unwrap_or(0);
         let dev = VqDev::new(q, reg, f & F_INDIRECT != 0, f & F_EVENT_IDX != 0);
-        let s = QSrv { dev, policy, notified: false, held: VecDeque::new(), chains_seen: 0, indirect_seen: 0, completed: 0, last_irq_used_idx: 0 };
+        let s = QSrv { dev, policy, notified: false, held: VecDeque::new(), chains_seen: 0, indirect_seen: 0, completed: 0, last_irq_used_idx: 0, switch_after: None };
         s.arm();
         Some(s)
     }
@@ -120,6 +124,14 @@ impl QSrv {
         let w = self.dev.write_payload(&ch, data)?;
         self.dev.complete(ch.head, len.unwrap_or(w as u32))?;
         self.completed += 1;
+        if let Some(k) = self.switch_after {
+            if self.policy == Policy::Polling && self.completed >= k {
+                self.policy = Policy::OnNotify;
+                self.switch_after = None;
+                self.arm();
+                let _ = self.fetch_all();
+            }
+        }
         Ok(ch)
     }
     /// Hostile completion: write an arbitrary (id, len) element at the current used slot and advance
